@@ -940,11 +940,17 @@ def gen_td_random(rnd, tier):
     for _ in range(ncase):
         m = rnd.choice([1, 2, 2, 3, 3, 4, 5])
         n = 1 if rnd.random() < 0.05 else rnd.randint(2, rnd.choice([3, 5, nmax]))
-        style = rnd.choice(["dyadic", "dyadic", "decimal", "int", "collinear", "front"])
+        style = rnd.choice(["dyadic", "dyadic", "decimal", "int", "collinear", "front", "tiny"])
         exact = style != "decimal"
         if style == "dyadic":
             pts = [[rnd.randint(-512, 512) / 64.0 for _ in range(m)] for _ in range(n)]
             shift = [rnd.randint(-4096, 4096) / 64.0 for _ in range(m)]
+        elif style == "tiny":
+            # some objectives measured in very small units (exact power-of-two rescaling of a dyadic front): a range of
+            # 1e-10 is still a range, and min-max scaling must treat it like any other
+            unit_ = [2.0 ** -rnd.choice([0, 30, 40, 60]) for _ in range(m)]
+            pts = [[rnd.randint(-512, 512) / 64.0 * unit_[k] for k in range(m)] for _ in range(n)]
+            shift = [0.0 for _ in range(m)]
         elif style == "decimal":
             pts = [[round(rnd.random(), 3) for _ in range(m)] for _ in range(n)]
             shift = [round(rnd.uniform(-10, 10), 3) for _ in range(m)]
